@@ -33,7 +33,8 @@ class C15(Prop):
     level_note = ("metamorphic differential testing on the real code; the Lean side contributes the permutation- and "
                   "regrouping-invariance theorems of the specifications; D17 (1-Euclidean depends on storage order) is "
                   "a known finding")
-    technique = "metamorphic testing under relabelling / storage permutation + Lean invariance corollaries of proved specs"
+    technique = ("Lean 4 invariance theorems (specifications; verdicts of the recognisers proved exact; value of the dynamic "
+                 "programme) + metamorphic testing of the real code under relabelling / storage permutation / API regrouping")
     theorems = [
         "PrefVerif.C06.scores_perm",
         "PrefVerif.C06.plurality_regroup",
